@@ -725,6 +725,151 @@ def thread_constant_flags(modules, known, rep):
                     break
 
 
+# ---------------------------------------------------------------------------------------------- N25 scope classes
+def _scope_class(c: ast.ClassDef):
+    """(params, {attr: param}, exit body, is_async) of a class that is nothing but a try/finally in object form: `__init__` stores
+    its parameters, `__enter__` returns self, `__exit__` runs statements and does not suppress the exception; else None."""
+    if c.bases and [ast.unparse(b) for b in c.bases] != ["object"]:
+        return None
+    if c.decorator_list or c.keywords:
+        return None
+    meths = {m.name: m for m in c.body if isinstance(m, FUNC)}
+    others = [m for m in c.body if not isinstance(m, FUNC) and not (isinstance(m, ast.Expr) and isinstance(m.value, ast.Constant))]
+    if others:
+        return None
+    if set(meths) == {"__init__", "__enter__", "__exit__"}:
+        is_async = False
+        ent, ex = meths["__enter__"], meths["__exit__"]
+        if isinstance(ent, ast.AsyncFunctionDef) or isinstance(ex, ast.AsyncFunctionDef):
+            return None
+    elif set(meths) == {"__init__", "__aenter__", "__aexit__"}:
+        is_async = True
+        ent, ex = meths["__aenter__"], meths["__aexit__"]
+        if not (isinstance(ent, ast.AsyncFunctionDef) and isinstance(ex, ast.AsyncFunctionDef)):
+            return None
+    else:
+        return None
+    init = meths["__init__"]
+    if isinstance(init, ast.AsyncFunctionDef) or init.args.vararg or init.args.kwarg or init.args.kwonlyargs or init.args.defaults:
+        return None
+    params = [a.arg for a in init.args.args]
+    if not params:
+        return None
+    selfn = params[0]
+    attrs = {}
+
+    def strip_doc(b):
+        return b[1:] if b and isinstance(b[0], ast.Expr) and isinstance(b[0].value, ast.Constant) and isinstance(b[0].value.value, str) else b
+    for st in strip_doc(init.body):
+        if not (isinstance(st, (ast.Assign, ast.AnnAssign)) and isinstance(st.value, ast.Name) and st.value.id in params[1:]):
+            return None
+        t = st.targets[0] if isinstance(st, ast.Assign) else st.target
+        if isinstance(st, ast.Assign) and len(st.targets) != 1:
+            return None
+        if not (isinstance(t, ast.Attribute) and isinstance(t.value, ast.Name) and t.value.id == selfn):
+            return None
+        attrs[t.attr] = st.value.id
+    eb = strip_doc(ent.body)
+    if not (len(eb) == 1 and ((isinstance(eb[0], ast.Return) and (eb[0].value is None or (isinstance(eb[0].value, ast.Name) and eb[0].value.id == ent.args.args[0].arg)
+                                                                        or (isinstance(eb[0].value, ast.Constant) and eb[0].value.value is None)))
+                              or isinstance(eb[0], ast.Pass))):
+        return None
+    xb = list(strip_doc(ex.body))
+    if len(ex.args.args) != 4:
+        return None
+    xself = ex.args.args[0].arg
+    excn = {a.arg for a in ex.args.args[1:]}
+    if xb and isinstance(xb[-1], ast.Return):
+        v = xb[-1].value
+        if not (v is None or (isinstance(v, ast.Constant) and v.value in (None, False))):
+            return None
+        xb = xb[:-1]
+    if any(isinstance(x, (ast.Return, ast.Yield, ast.YieldFrom)) or (isinstance(x, ast.Name) and x.id in excn) for st in xb for x in ast.walk(st)):
+        return None
+    # self is only read through the stored attributes
+    for st in xb:
+        for x in ast.walk(st):
+            if isinstance(x, ast.Name) and x.id == xself:
+                par = next((y for y in ast.walk(st) if isinstance(y, ast.Attribute) and y.value is x), None)
+                if par is None or par.attr not in attrs or not isinstance(par.ctx, ast.Load):
+                    return None
+    return params[1:], attrs, xb, is_async, xself
+
+
+def expand_scope_classes(modules, known, rep):
+    """`with C(a, b): BODY` over a NEW class C that only packages a `finally` block (see _scope_class) is
+    `try: BODY finally: <C.__exit__ body with self.<attr> := the argument>` - the arguments are plain names / attributes that BODY
+    does not assign.  The class is dropped when nothing else mentions it."""
+    for rel, mod in modules.items():
+        kf = known["functions"]
+        cands = {}
+        for c in mod.tree.body:
+            if isinstance(c, ast.ClassDef) and f"{rel}::{c.name}" not in kf:
+                sc = _scope_class(c)
+                if sc is not None:
+                    cands[c.name] = (c, sc)
+        if not cands:
+            continue
+        for rel2, scn, fn in list(all_functions({rel: mod})):
+            if scn in cands:
+                continue
+            changed = True
+            while changed:
+                changed = False
+                for owner, fld, stmts in list(_blocks(fn)):
+                    for i, st in enumerate(stmts):
+                        if not isinstance(st, (ast.With, ast.AsyncWith)) or len(st.items) != 1 or st.items[0].optional_vars is not None:
+                            continue
+                        ce = st.items[0].context_expr
+                        if not (isinstance(ce, ast.Call) and isinstance(ce.func, ast.Name) and ce.func.id in cands and not ce.keywords):
+                            continue
+                        c, (params, attrs, xb, is_async, xself) = cands[ce.func.id]
+                        if is_async != isinstance(st, ast.AsyncWith) or len(ce.args) != len(params):
+                            continue
+
+                        def simple(e):
+                            return isinstance(e, ast.Name) or (isinstance(e, ast.Attribute) and simple(e.value))
+                        if not all(simple(a) for a in ce.args):
+                            continue
+                        roots = set()
+                        for a in ce.args:
+                            r_ = a
+                            while isinstance(r_, ast.Attribute):
+                                r_ = r_.value
+                            roots.add(r_.id)
+                        body_stores = {n.id for b in st.body for n in ast.walk(b) if isinstance(n, ast.Name) and isinstance(n.ctx, (ast.Store, ast.Del))}
+                        if roots & body_stores:
+                            continue
+                        argof = dict(zip(params, ce.args))
+                        caller_locals = {n.id for n in ast.walk(fn) if isinstance(n, ast.Name) and isinstance(n.ctx, (ast.Store, ast.Del))} | set(_params(fn))
+                        xlocals = {n.id for b in xb for n in ast.walk(b) if isinstance(n, ast.Name) and isinstance(n.ctx, (ast.Store, ast.Del))}
+                        ren = {x: f"{x}__{c.name.strip('_')}" for x in xlocals if x in caller_locals}
+
+                        class S(ast.NodeTransformer):
+                            def visit_Attribute(self, node):
+                                if isinstance(node.value, ast.Name) and node.value.id == xself and node.attr in attrs:
+                                    return ast.copy_location(copy.deepcopy(argof[attrs[node.attr]]), node)
+                                self.generic_visit(node)
+                                return node
+
+                            def visit_Name(self, node):
+                                if node.id in ren:
+                                    return ast.copy_location(ast.Name(ren[node.id], node.ctx), node)
+                                return node
+                        fin = [S().visit(copy.deepcopy(b)) for b in xb] or [ast.Pass()]
+                        new = ast.copy_location(ast.Try(body=st.body, handlers=[], orelse=[], finalbody=fin), st)
+                        ast.fix_missing_locations(new)
+                        stmts[i] = new
+                        rep.other.append(f"`with {c.name}(...)` in {scn + '.' if scn else ''}{fn.name} read as the try/finally it packages")
+                        changed = True
+                        break
+                    if changed:
+                        break
+        for name, (c, _) in cands.items():
+            if not any(isinstance(x, ast.Name) and x.id == name for m in modules.values() for x in ast.walk(m.tree)) and c in mod.tree.body:
+                mod.tree.body.remove(c)
+
+
 # ---------------------------------------------------------------------------------------------- N24 augmented assignment
 def expand_augassign(modules, known, rep):
     """a new `x -= c` / `x += c` on a plain local with a numeric constant is `x = x - c` (no in-place form exists for numbers)"""
